@@ -124,6 +124,16 @@ def make_scheduler(kind: str, name: str, p2e, seed: int, mode="min"):
         so = {"debug_log": False}
         if kind == "fifo_bayesopt":
             so["num_init_random"] = 3
+        if kind == "fifo_grid_dup":
+            so["allow_duplicates"] = True       # the grid is walked through again and again
+            return cs, FIFOScheduler(cs, searcher="grid", search_options=so, **common)
+        if kind == "fifo_random_restrict":
+            # suggestions restricted to a given list of configurations (the first six of the space)
+            import itertools
+            names = [hp for (hp, k_, l, u, n) in SPACES[name]]
+            vals = [domain_values(k_, l, u, n) for (hp, k_, l, u, n) in SPACES[name]]
+            so["restrict_configurations"] = [dict(zip(names, v)) for v in itertools.islice(itertools.product(*vals), 6)]
+            return cs, FIFOScheduler(cs, searcher="random", search_options=so, **common)
         if kind == "fifo_random_dup":
             so["allow_duplicates"] = True      # the exclusion list then only holds the configurations of failed trials
             return cs, FIFOScheduler(cs, searcher="random", search_options=so, **common)
@@ -186,7 +196,7 @@ def make_scheduler(kind: str, name: str, p2e, seed: int, mode="min"):
     raise ValueError(kind)
 
 
-NOREPEAT = {"hbdeep_hypertune": True, "hbt_pasha": True, "hbt_rush_stopping": True, "hbt_rush_promotion": True, "hbt_cost_promotion": True, "moasha": False,
+NOREPEAT = {"fifo_grid_dup": False, "fifo_random_restrict": False, "hbdeep_hypertune": True, "hbt_pasha": True, "hbt_rush_stopping": True, "hbt_rush_promotion": True, "hbt_cost_promotion": True, "moasha": False,
             "median": True, "hbdeep_bayesopt": True, "fifo_random_dup": False, "fifo_random": True, "fifo_grid": True, "fifo_bayesopt": True, "hb_random": True, "hb_random_promo": True,
             "hb_bayesopt": True, "hb_hypertune": True, "synchb": True, "dehb": False, "pbt": False, "regevo": False}
 
